@@ -20,8 +20,7 @@ TECHNIQUE = ('generated UB-free Fortran files (old-style operators / UBOUND chec
 RULE = ('a case is a file model (optional module with 1-2 procedures, 0-2 free routines, optional internal procedure; '
         'IF / ELSE IF / one-line IF / WHERE statement+construct / DO / DO WHILE / continued conditions; relational '
         'operators in old and new spelling, 4 letter cases, with and without blanks; assumed-shape dummies with full / '
-        'partial / no UBOUND checks in 4 declaration styles, one conditional checking two dummies against different extents '
-        'whose SIZE/SUM the routine uses) + 2 input vectors + rule order, after removal of the features '
+        'partial / no UBOUND checks in 4 declaration styles) + 2 input vectors + rule order, after removal of the features '
         'listed under excluded_by_construction (known:*). non-trivial = the original '
         'file contains >= 1 fixable violation (old-style operator token or fully checked assumed-shape dummy) and >= 1 decoy '
         '(operator / UBOUND text inside a string literal or a comment); distinct by JSON case')
@@ -346,7 +345,7 @@ def relops_to_f90(s):
 
 def profile(ctx_thorough):
     return {'maxlen': 6 if ctx_thorough else 4, 'ubound': True, 'members': True, 'functions': True,
-            'ubound_ne': True, 'ubound_smaller': True, 'ubound_local': True, 'ubound_pair': True}
+            'ubound_ne': True, 'ubound_smaller': True, 'ubound_local': True}
 
 
 @st.composite
@@ -354,12 +353,9 @@ def cases(draw, thorough):
     model = draw(lintgen.file_model('kx', profile(thorough)))
     has_ne = any(d['rel'] == 'ne' for r, _ in lintgen.all_routines(model) for a in ('x', 'z', 'y')
                  for d in r['ub'][a].get('dims', []))
-    inputs = draw(lintgen.inputs())
-    if lintgen.has_pair(model):
-        inputs = lintgen.pair_inputs(inputs)
     return {
         'model': model,
-        'inputs': inputs,
+        'inputs': draw(lintgen.inputs()),
         'rule_order': draw(st.sampled_from([0, 0, 1])),
         # the actual arrays are larger than n in the first dimension (checks of the form ubound < n still pass,
         # checks of the form ubound /= n would not)
@@ -988,8 +984,6 @@ def _check(case, ctx, work, behaviour=True):
         classes.append('ubound:fully-checked-dummy')
     if any(r['ub'][a]['mode'] == 'partial' for r, _ in routines for a in ('x', 'z', 'y')):
         classes.append('ubound:partially-checked-dummy')
-    if lintgen.has_pair(model):
-        classes.append('ubound:one-conditional-checks-two-dummies-against-different-extents')
     if rc.n_decoy_str:
         classes.append('decoy:string')
     if rc.n_decoy_com:
